@@ -67,7 +67,7 @@ class PrefetchIterator:
         item = self._buffer.pop(0)
         self._cond.notify_all()
         return item
-      if self._error:
+      if self._error is not None:
         raise self._error  # pylint: disable=raising-bad-type
       assert not self._active
       raise StopIteration()
